@@ -471,6 +471,11 @@ def run(ctx):
     from ..shared import zero_argument_division_rule as _zero_argument_division_rule
 
     ctx.attempt(_zero_argument_division_rule, ctx, "R16.12", scope=lambda f: f.module.name.startswith(("EasyFEA.Models.InElastic", "EasyFEA.Simulations._inelastic")))
+    from ..shared import parameter_threading_rule as _parameter_threading_rule
+
+    # a stress RESULT is the stress of the committed internal state: every step of the read receives that state
+    ctx.attempt(_parameter_threading_rule, ctx, "R16.15", scope=lambda f: f.module.name.startswith("EasyFEA.Models.InElastic"), pname="z_e_pg", min_instances=4)
+    ctx.attempt(stress_read_state_rule, ctx)
     from ..shared import group_loop_rule as _group_loop_rule
     from . import c14 as _c14
 
@@ -673,3 +678,52 @@ def group_order_rule(ctx):
             r.ok(f"groups {tags}: blocks stacked as {order}")
         else:
             r.fail(f.qualname, f"order:{'+'.join(tags)}", f.file, f.lineno, "Mesh.Get_connect_n_e", f"main-dimension groups {tags}: the incidence blocks are stacked as {got} while the elements (and every element result) are numbered in the order {order}: one group's element values are averaged over the other group's connectivity")
+
+
+def stress_read_state_rule(ctx, rid="R16.16"):
+    """The stress RESULT of an inelastic material is the stress of the given strain AT THE GIVEN INTERNAL STATE: Behavior.
+    Compute_stress is interpreted with recording stand-ins for the kinematic completion (Compute_strain_6d: in plane
+    stress it solves the out-of-plane strain that makes sig_zz vanish -- at a state) and for the stress evaluation
+    (Compute_sigma): both must receive the state Compute_stress was given, and no time may elapse (dt = 0)."""
+    from ..xeval import Interp, XObj, Opaque, XRaise
+    from ..alg import Q
+
+    repo = ctx.repo
+    ci = repo.cls("EasyFEA.Models.InElastic._behavior.Behavior")
+    f = ci.methods["Compute_stress"]
+    r = ctx.rule(rid, "Behavior.Compute_stress hands the internal state it was given to the kinematic completion (plane-stress eps_zz) and to the stress evaluation, with no elapsed time", min_instances=1)
+    r.instance(fn=f.qualname)
+    log = {}
+    Z, EPS, EPS6 = Opaque("z"), Opaque("eps"), Opaque("eps6")
+
+    def strain6(eps, zOld=None, dt=Q(0), *a, **k):
+        if "zOld_e_pg" in k:
+            zOld = k["zOld_e_pg"]
+        log["strain"] = (eps, zOld, k.get("dt", dt))
+        return EPS6
+
+    def sigma(eps6, z=None, *a, **k):
+        log["sigma"] = (eps6, k.get("z_e_pg", z))
+        return Opaque("sig6")
+
+    obj = XObj(ci, {"Compute_strain_6d": strain6, "Compute_sigma": sigma, "dim": 3})
+    try:
+        Interp(repo).call_function(f, [EPS, Z], self_obj=obj)
+    except XRaise as e:
+        r.fail(f.qualname, "state-threading", f.file, f.lineno, "Behavior.Compute_stress", f"raises {e}")
+        return
+    bad = None
+    if "strain" not in log or "sigma" not in log:
+        bad = "the stress read no longer goes through Compute_strain_6d / Compute_sigma"
+    elif log["strain"][0] is not EPS:
+        bad = "the kinematic completion does not receive the given strain"
+    elif log["strain"][1] is not Z:
+        bad = f"the kinematic completion receives the state {log['strain'][1]!r} instead of the given one: in plane stress the out-of-plane strain is solved from a virgin material while the stress is then evaluated with the committed plastic strain (Sxx, Syy, Svm wrong after yielding and unloading)"
+    elif not (isinstance(log["strain"][2], (int, float)) or hasattr(log["strain"][2], "numerator")) or log["strain"][2] != 0:
+        bad = f"the kinematic completion runs with dt = {log['strain'][2]!r}: reading a stress lets time elapse"
+    elif log["sigma"][0] is not EPS6 or log["sigma"][1] is not Z:
+        bad = "the stress evaluation does not receive the completed strain and the given state"
+    if bad:
+        r.fail(f.qualname, "state-threading", f.file, f.lineno, "Behavior.Compute_stress", bad)
+    else:
+        r.ok("Compute_stress: (eps, z, dt=0) -> Compute_strain_6d; (eps6, z) -> Compute_sigma")
